@@ -65,7 +65,7 @@ def cmd_import(a):
     src = a.src or f"/tmp/wt-out/{a.id}"
     meta = json.load(open(os.path.join(src, "meta.json")))
     for m in meta["mutants"]:
-        name = f"{a.id}-{m['name']}"
+        name = f"{a.id}-{m['name']}{a.suffix}"
         wt = worktree("imp-" + name)
         try:
             demo = os.path.join(src, m["demo"])
@@ -90,7 +90,7 @@ def cmd_import(a):
             shutil.copy(demo, os.path.join(d, "demo.py"))
             json.dump({
                 "property": a.id, "name": name, "summary": m.get("summary"), "breaks": m.get("breaks"), "needs": m.get("needs"),
-                "author": "independent sub-agent given only the property text and a scratch worktree",
+                "author": "independent sub-agent given only the property text and a scratch worktree" + (" (round 2: also told which changes had already been tried and asked for harder ones)" if a.suffix else ""),
                 "confirmed": {
                     "repo_head": sh("git -C /repo rev-parse --short HEAD")[1].strip(),
                     "demo_on_clean_tree_rc": rc0, "tests_with_patch": tail, "demo_with_patch_rc": rc1,
@@ -154,6 +154,7 @@ def main():
     i = sub.add_parser("import")
     i.add_argument("id")
     i.add_argument("--from", dest="src")
+    i.add_argument("--suffix", default="")
     e = sub.add_parser("eval")
     e.add_argument("dirs", nargs="*")
     e.add_argument("--tier", default="quick")
